@@ -308,6 +308,12 @@ def gen_scripts(rng, world, ctx):
                    "fault": ("eio" if rng.random() < 0.15 else None)})
         if X[0] == "P" and rng.random() < 0.3:
             st.append({"op": "graph", "obj": X})
+        if rng.random() < 0.6:
+            # does serialising leave the object as it was?  set it up again afterwards, with and without a grid
+            g = rng.choice(grids)
+            p = _p(rng, ctx, g)
+            st.append({"op": ("P.setup" if X[0] == "P" else "a.setup"), "obj": X, "grid": rng.choice([None, None, g]),
+                       "prices": p, "cast": False, "costs_only": False})
         return st
 
     def structured_user():
@@ -471,6 +477,13 @@ class Model:
                     self.clipped.add(ia)
         self.prev_setup_grid[oid] = gid
         self.last_failed[oid] = not ok
+
+    def smear(self, oid):
+        """A call ran on oid while the harness does not know which grid oid holds: whatever it holds has
+        been handed to everything below it, so those objects are not known either."""
+        sub = subtree_assets(self.w, oid)
+        for o in ([oid] if oid[0] == "P" else []) + sub + inner_portfolios(self.w, oid):
+            self.given[o] = AMBIG
 
     def shared_dicts_of(self, oid):
         return sorted(x for x in specs.referenced_ids(self.w, oid) if x[0] == "d")
@@ -734,6 +747,8 @@ class Exec:
             s = self.judged(i, st, lambda B: self.do_setup(B, st, gid, False), lambda B: self.do_setup(B, st, gid, True),
                             gid, judge=judge)
             ok = s.exc is None
+            if gid == AMBIG:
+                M.smear(st["obj"])
             if gid not in (None, AMBIG):
                 M.touch(st["obj"], gid, ok)
                 for d in M.shared_dicts_of(st["obj"]):
@@ -771,6 +786,8 @@ class Exec:
             self.record_pair(st, gid)
             s = self.judged(i, st, lambda B: self.do_samples(B, st, gid, False), lambda B: self.do_samples(B, st, gid, True),
                             gid, judge=judge)
+            if gid == AMBIG:
+                M.smear(st["obj"])
             if gid not in (None, AMBIG):
                 M.touch(st["obj"], gid, s.exc is None)
         elif op == "g.v2g":
